@@ -137,7 +137,7 @@ def program(draw):
     # a faulty definition nothing (or nothing that matters) refers to: it is evaluated at the very end of the build
     unused = None
     if draw(st.integers(0, 5)) == 0:
-        unused = {"fault": draw(st.sampled_from(["div0", "mod0", "negshift", "digit89", "fine"])), "dep_below": draw(st.booleans()),
+        unused = {"fault": draw(st.sampled_from(["div0", "mod0", "negshift", "digit89", "digit89-bare", "fine"])), "dep_below": draw(st.booleans()),
                   "use": draw(st.sampled_from(["none", "none", "cancel", "times0"])), "dep_first": draw(st.booleans())}
     return {"kind": "c05", "items": items, "consts": consts, "where": where, "chain": chain, "base": base, "ints": ints,
             "rules": sorted(rules), "rep": nrep, "unused": unused}
@@ -257,7 +257,7 @@ def build(case):
         z = ("sym", "zq")
         f = un["fault"]
         e = {"div0": ("bin", "/", ("num", 7), z), "mod0": ("bin", "%", ("num", 7), z), "negshift": ("bin", "<<", ("num", 1), ("bin", "-", z, ("num", 1))),
-             "digit89": ("bin", "+", z, ("raw", "19")), "fine": ("bin", "+", z, ("num", 17))}[f]
+             "digit89": ("bin", "+", z, ("raw", "19")), "digit89-bare": ("raw", "19"), "fine": ("bin", "+", z, ("num", 17))}[f]
         if un["dep_first"] and f in ("div0", "mod0"):
             e = ("bin", "+", z, e)
         udef = {"k": "assign", "name": "uq", "e": e}
@@ -269,7 +269,7 @@ def build(case):
             pre.append(zdef)
             pre.append(udef)
         if f != "fine":
-            errors.add({"div0": "arithmetic-error", "mod0": "arithmetic-error", "negshift": "arithmetic-error", "digit89": "invalid-number"}[f])
+            errors.add({"div0": "arithmetic-error", "mod0": "arithmetic-error", "negshift": "arithmetic-error", "digit89": "invalid-number", "digit89-bare": "invalid-number"}[f])
         if un["use"] != "none":
             ue = ("bin", "-", ("sym", "uq"), ("sym", "uq")) if un["use"] == "cancel" else ("bin", "*", ("num", 0), ("sym", "uq"))
             body.append({"k": "data", "d": "word", "es": [ue]})
